@@ -36,12 +36,16 @@ type Party interface {
 	advance()
 	lock()
 	unlock()
+	markStoredBeforeStart()
+	hasStoredBeforeStart() bool
 }
 
 type BaseParty struct {
 	mtx        sync.Mutex
 	rnd        Round
 	FirstRound Round
+	// a message was stored while no round was set, i.e. it was delivered before Start()
+	storedBeforeStart bool
 }
 
 func (p *BaseParty) Running() bool {
@@ -105,6 +109,14 @@ func (p *BaseParty) advance() {
 	p.rnd = p.rnd.NextRound()
 }
 
+func (p *BaseParty) markStoredBeforeStart() {
+	p.storedBeforeStart = true
+}
+
+func (p *BaseParty) hasStoredBeforeStart() bool {
+	return p.storedBeforeStart
+}
+
 func (p *BaseParty) lock() {
 	p.mtx.Lock()
 }
@@ -138,9 +150,28 @@ func BaseStart(p Party, task string, prepare ...func(Round) *Error) *Error {
 	}
 	common.Logger.Infof("party %s: %s round %d starting", p.round().Params().PartyID(), task, 1)
 	defer func() {
-		common.Logger.Debugf("party %s: %s round %d finished", p.round().Params().PartyID(), task, 1)
+		common.Logger.Debugf("party %s: %s round %d finished", p.PartyID(), task, 1)
 	}()
-	return p.round().Start()
+	if err := p.round().Start(); err != nil {
+		return err
+	}
+	// Messages that were delivered before Start() have only been stored. If no further message arrives
+	// nothing would ever look at them again (e.g. a new committee member in re-sharing that received every
+	// round 1 message before its Start), so evaluate them now, the way BaseUpdate does after storing one.
+	for p.hasStoredBeforeStart() && p.round() != nil {
+		if _, err := p.round().Update(); err != nil {
+			return err
+		}
+		if !p.round().CanProceed() {
+			break
+		}
+		if p.advance(); p.round() != nil {
+			if err := p.round().Start(); err != nil {
+				return err
+			}
+		}
+	}
+	return nil
 }
 
 // an implementation of Update that is shared across the different types of parties (keygen, signing, dynamic groups)
@@ -161,6 +192,9 @@ func BaseUpdate(p Party, msg ParsedMessage, task string) (ok bool, err *Error) {
 	}
 	if ok, err := p.StoreMessage(msg); err != nil || !ok {
 		return r(false, err)
+	}
+	if p.round() == nil {
+		p.markStoredBeforeStart() // Start() will evaluate it
 	}
 	if p.round() != nil {
 		common.Logger.Debugf("party %s: %s round %d update", p.round().Params().PartyID(), task, p.round().RoundNumber())
